@@ -132,7 +132,7 @@ func (in *callInliner) helperFor(call *ast.CallExpr, active map[*ast.FuncDecl]bo
 		if !ok {
 			return nil
 		}
-		if _, isID := ast.Unparen(sel.X).(*ast.Ident); !isID {
+		if _, isID := ast.Unparen(sel.X).(*ast.Ident); !isID && !isFieldPath(in.info, sel.X) {
 			return nil
 		}
 	}
@@ -206,6 +206,20 @@ func (in *callInliner) tailForm(list []ast.Stmt) ([]ast.Stmt, bool) {
 				return nil, false
 			}
 			return append(out, &ast.BlockStmt{Lbrace: t.Lbrace, List: inner, Rbrace: t.Rbrace}), true
+		case *ast.SwitchStmt:
+			if !containsReturn(t) {
+				out = append(out, t)
+				continue
+			}
+			// a tagless switch whose arms return reads as the if/else chain it stands for
+			if chain, isIf := switchToIfStmt(t).(*ast.IfStmt); isIf {
+				rest, ok := in.tailForm(append([]ast.Stmt{chain}, list[i+1:]...))
+				if !ok {
+					return nil, false
+				}
+				return append(out, rest...), true
+			}
+			return nil, false
 		default:
 			if containsReturn(st) {
 				return nil, false // return inside a loop, switch, select or labelled statement
@@ -336,6 +350,12 @@ func (in *callInliner) bindArgs(fd *ast.FuncDecl, call *ast.CallExpr, subst map[
 				in.aliases.bind(recvObj, in.info.Uses[id])
 				if subst != nil && recvObj != nil && !written[recvObj] {
 					subst[recvObj] = id
+				}
+			} else if isFieldPath(in.info, sel.X) {
+				// a method of a field (`s.listeners.push(v)`): the receiver stands for that field path
+				recvObj := in.info.Defs[fd.Recv.List[0].Names[0]]
+				if subst != nil && recvObj != nil && !written[recvObj] {
+					subst[recvObj] = sel.X
 				}
 			}
 		}
@@ -727,4 +747,23 @@ func (f *inlinedFn) Obj(id *ast.Ident) types.Object {
 		return f.Al.Root(o)
 	}
 	return f.Al.Root(f.info.Defs[id])
+}
+
+// isFieldPath: e is `x.f.g…` — field selections only, rooted at an identifier.
+func isFieldPath(info *types.Info, e ast.Expr) bool {
+	sel, ok := ast.Unparen(e).(*ast.SelectorExpr)
+	if !ok {
+		return false
+	}
+	if s := info.Selections[sel]; s == nil || s.Kind() != types.FieldVal {
+		return false
+	}
+	switch x := ast.Unparen(sel.X).(type) {
+	case *ast.Ident:
+		_, isVar := info.Uses[x].(*types.Var)
+		return isVar
+	case *ast.SelectorExpr:
+		return isFieldPath(info, x)
+	}
+	return false
 }
